@@ -250,6 +250,16 @@ def py_p_a_ge_dflt(e, n=1):
 
 
 @predicate
+def p_val(e):
+    """a @predicate function whose result is a VALUE (an int, possibly 0), used as an operand or selected"""
+    return e.a
+
+
+def py_p_val(e):
+    return e.a
+
+
+@predicate
 def p_a_lt(e, f):
     """function predicate relating two entities"""
     return e.a < f.a
@@ -340,7 +350,7 @@ class BLess(Predicate):
         return self.e.b < self.f.b
 
 
-FUNC_PREDS = {"p_a_ge_dflt": (p_a_ge_dflt, py_p_a_ge_dflt), "p_runs_subquery_inside": (p_runs_subquery_inside, py_p_runs_subquery_inside), "p_val_eq": (p_val_eq, py_p_val_eq), "p_n_le_a": (p_n_le_a, py_p_n_le_a), "p_runs_subquery": (p_runs_subquery, py_p_runs_subquery), "p_flaky": (p_flaky, py_p_flaky), "p_a_ge": (p_a_ge, py_p_a_ge), "p_a_lt": (p_a_lt, py_p_a_lt), "p_same_b": (p_same_b, py_p_same_b)}
+FUNC_PREDS = {"p_val": (p_val, py_p_val), "p_a_ge_dflt": (p_a_ge_dflt, py_p_a_ge_dflt), "p_runs_subquery_inside": (p_runs_subquery_inside, py_p_runs_subquery_inside), "p_val_eq": (p_val_eq, py_p_val_eq), "p_n_le_a": (p_n_le_a, py_p_n_le_a), "p_runs_subquery": (p_runs_subquery, py_p_runs_subquery), "p_flaky": (p_flaky, py_p_flaky), "p_a_ge": (p_a_ge, py_p_a_ge), "p_a_lt": (p_a_lt, py_p_a_lt), "p_same_b": (p_same_b, py_p_same_b)}
 CLASS_PREDS = {"IsBig": (IsBig, lambda e: e.k >= 2), "BLess": (BLess, lambda e, f: e.b < f.b)}
 
 
